@@ -159,6 +159,11 @@ func runC01(c *engine.Ctx) {
 					meta: map[string]string{hv[0]: hv[1]}})
 			}
 		}
+		// G5b: header values are bytes, not necessarily UTF-8 (Latin-1 file names are common)
+		for _, hv := range [][2]string{{"x-amz-meta-a", "caf\xe9"}, {"Content-Disposition", "attachment; filename=\"na\xefve.txt\""}} {
+			cases = append(cases, c01Case{kind: k, group: "header-value-not-utf8", path: "put", key: "h/k", keyName: hv[0] + "=" + hv[1], size: 5, pattern: "mod251", integrity: "on", start: "absent",
+				meta: map[string]string{hv[0]: hv[1]}})
+		}
 		// G6: a copy that replaces metadata leaves the source's metadata alone
 		cases = append(cases, c01Case{kind: k, group: "copy-replace-meta", path: "copy-meta", key: "dst/k", keyName: "dst/k", size: 7, pattern: "mod251", integrity: "on", start: "absent"})
 		// G3
@@ -214,6 +219,9 @@ func runC01(c *engine.Ctx) {
 		}
 		if cs.group == "copy-replace-meta" {
 			cond = "copy-replace-meta"
+		}
+		if cs.group == "header-value-not-utf8" {
+			cond = "header-value-not-utf8"
 		}
 		c.Report(&engine.Violation{Sig: sig("C01", backendClass(cs.kind), cs.path, f, cond), World: string(cs.kind), History: []string{cs.String()}, Msg: cs.String() + ": " + msg})
 	})
